@@ -106,7 +106,9 @@ theorem sot_rotate_charpoly (R K : M3) (h : mul3 (transpose3 R) R = id3) (x : Ra
 
 /-- the copy of a constructed second-order tensor passes the constructor's checks again and
     equals the original -/
-theorem sot_copy_of_constructed (a : Args) (t : List M3) (h : mkSOT a = .ok t) : copySOT t = .ok t := by
+theorem sot_copy_of_constructed (a : Args) (t : List M3) (h : mkSOT a = .ok t) :
+    copySOTcoded t = .ok t ∧ copySOTcoded t = .ok (copySOT t) := by
+  refine (fun h => ⟨h, h⟩) ?_
   obtain ⟨kyy, kzz, kxy, kxz, kyz, _, _, _, _, _, hx, hy, hz, ht⟩ := mkSOT_ok_inv a t h
   have hlen : t.length = a.kxx.length := by rw [ht, build_length]
   -- the arguments `copy` hands to the constructor
@@ -163,13 +165,11 @@ theorem restrict_selects {α : Type} (l : List α) (cells : List Nat) :
   ⟨fun r h => select_spec l cells r h, select_some_of_in_range l cells,
    fun c hc hle => select_none_of_out_of_range l cells c hc hle⟩
 
-/-- `restrict_to_cells` on a constructed second-order tensor selects the cells of the original -/
-theorem sot_restrict_selects (a : Args) (t : List M3) (h : mkSOT a = .ok t) (cells : List Nat) (r : List M3)
+/-- `restrict_to_cells` selects the cells of the original (any tensor, rotated ones included) -/
+theorem sot_restrict_selects (t : List M3) (cells : List Nat) (r : List M3)
     (hr : restrictSOT t cells = .ok r) :
     r.length = cells.length ∧ ∀ k, k < cells.length → r[k]? = t[cells.getD k 0]? := by
-  unfold restrictSOT at hr
-  rw [sot_copy_of_constructed a t h] at hr
-  simp only at hr
+  unfold restrictSOT copySOT at hr
   cases hs : select t cells with
   | none => simp [hs] at hr
   | some r' =>
@@ -177,6 +177,13 @@ theorem sot_restrict_selects (a : Args) (t : List M3) (h : mkSOT a = .ok t) (cel
     subst hr
     obtain ⟨h1, h2⟩ := select_spec t cells r' hs
     exact ⟨h1, fun k hk => (h2 k hk).2⟩
+
+/-- on every constructed tensor the coded `restrict_to_cells` (copy through the validating
+    constructor, then index) is the property-level one -/
+theorem sot_restrict_coded_agrees (a : Args) (t : List M3) (h : mkSOT a = .ok t) (cells : List Nat) :
+    restrictSOTcoded t cells = restrictSOT t cells := by
+  unfold restrictSOTcoded restrictSOT copySOT
+  rw [(sot_copy_of_constructed a t h).1]
 
 /-- `restrict_to_cells` on a fourth-order tensor selects the cells of `values` and of every
     constitutive parameter (mu, lmbda, other fields), keeping the basis matrices -/
@@ -227,6 +234,50 @@ theorem fot_symmetric (mu lmbda : List Rat) (extra : List Extra) (t : FOT)
       simp only [muMat, lmMat, extraSum, muTab_symm i j, lmTab_symm i j]
       rw [hsum extra hex 0 0 rfl]
 
+theorem muTab_minor : ∀ i j : Fin 9, tabI muTab (swapIdx i) j = tabI muTab i j ∧ tabI muTab i (swapIdx j) = tabI muTab i j := by
+  decide
+theorem lmTab_minor : ∀ i j : Fin 9, tabI lmTab (swapIdx i) j = tabI lmTab i j ∧ tabI lmTab i (swapIdx j) = tabI lmTab i j := by
+  decide
+
+/-- Minor symmetries c_ijkl = c_jikl = c_ijlk in the 9×9 layout (index 3·i + j): exchanging the
+    two indices of the row pair or of the column pair leaves every entry unchanged, for the
+    hard-coded basis and any other fields whose basis matrices have the minor symmetries. -/
+theorem fot_minor_symmetric (mu lmbda : List Rat) (extra : List Extra) (t : FOT)
+    (h : mkFOT mu lmbda extra = .ok t)
+    (hex : ∀ e ∈ extra, ∀ i j, e.mat (swapIdx i) j = e.mat i j ∧ e.mat i (swapIdx j) = e.mat i j) :
+    ∀ V ∈ t.values, ∀ i j, V (swapIdx i) j = V i j ∧ V i (swapIdx j) = V i j := by
+  unfold mkFOT at h
+  split at h
+  · cases h
+  · split at h
+    · cases h
+    · simp only [Except.ok.injEq] at h
+      subst h
+      intro V hV i j
+      simp only [List.mem_map] at hV
+      obtain ⟨c, _, rfl⟩ := hV
+      have hsum : ∀ (i' j' : Fin 9), (∀ e ∈ extra, e.mat i' j' = e.mat i j) →
+          extraSum extra c i' j' = extraSum extra c i j := by
+        intro i' j' hm
+        unfold extraSum
+        have : ∀ (es : List Extra), (∀ e ∈ es, e.mat i' j' = e.mat i j) → ∀ acc : Rat,
+            es.foldl (fun acc e => acc + e.mat i' j' * e.field.getD c 0) acc
+              = es.foldl (fun acc e => acc + e.mat i j * e.field.getD c 0) acc := by
+          intro es
+          induction es with
+          | nil => intro _ acc; rfl
+          | cons e es ih =>
+            intro hes acc
+            simp only [List.foldl_cons]
+            rw [hes e List.mem_cons_self]
+            exact ih (fun e' he' => hes e' (List.mem_cons_of_mem _ he')) _
+        exact this extra hm 0
+      constructor
+      · simp only [muMat, lmMat, (muTab_minor i j).1, (lmTab_minor i j).1]
+        rw [hsum (swapIdx i) j (fun e he => (hex e he i j).1)]
+      · simp only [muMat, lmMat, (muTab_minor i j).2, (lmTab_minor i j).2]
+        rw [hsum i (swapIdx j) (fun e he => (hex e he i j).2)]
+
 /-- The lengths and the parameters are stored as given; `mu` and `lmbda` of different lengths are rejected. -/
 theorem fot_constructor (mu lmbda : List Rat) (extra : List Extra) :
     (mu.length ≠ lmbda.length → mkFOT mu lmbda extra = .error .shape) ∧
@@ -247,6 +298,10 @@ theorem fot_constructor (mu lmbda : List Rat) (extra : List Extra) :
         simp [hc]
 
 /-! ### non-vacuity -/
+
+def errOf {α : Type} : Except Err α → Option Err
+  | .error e => some e
+  | .ok _ => none
 
 /-- a full anisotropic SPD cell and an isotropic default cell -/
 def exArgs : Args := { kxx := [4, 1], kyy := some [3, 1], kzz := some [2, 1], kxy := some [1, 0],
@@ -269,14 +324,24 @@ example : (mkSOT exArgs).toOption.map (fun t => entries (rotate exR t))
     = some [[[12/5, 1/5, 7/10], [1/5, 23/5, 1/10], [7/10, 1/10, 2]], [[1, 0, 0], [0, 1, 0], [0, 0, 1]]] := by
   decide +kernel
 
-def errOf {α : Type} : Except Err α → Option Err
-  | .error e => some e
-  | .ok _ => none
-
 example : errOf (mkSOT { kxx := [1, -1] }) = some .x := by decide +kernel
 example : errOf (mkSOT { kxx := [1], kyy := some [1], kxy := some [2] }) = some .y := by decide +kernel
 example : errOf (mkSOT { kxx := [1], kyy := some [1], kzz := some [1], kxz := some [2] }) = some .z := by decide +kernel
 example : errOf (mkSOT { kxx := [1, 1], kyy := some [1, 1, 1] }) = some .shape := by decide +kernel
+/-- Documented observation (not a C40 violation by itself): the constructor checks only the
+    leading principal minors `>= 0`, which is necessary but not sufficient for positive
+    semi-definiteness, so the INADMISSIBLE parameters diag(0, 0, -1) are accepted ... -/
+example : (mkSOT { kxx := [0], kyy := some [0], kzz := some [-1] }).toOption.map entries
+    = some [[[0, 0, 0], [0, 0, 0], [0, 0, -1]]] := by decide +kernel
+
+/-- ... and the coded `copy()` re-validates: after the (exact) rotation that moves the -1 to the
+    xx position it raises the x-direction error, while the property-level copy is total.
+    The same re-validation is what makes `copy()` / `restrict_to_cells` raise on ADMISSIBLE
+    singular tensors after a rotation with rounding (open finding, harness). -/
+example : ((mkSOT { kxx := [0], kyy := some [0], kzz := some [-1] }).toOption.map
+      (fun t => errOf (copySOTcoded (rotate (fun i j => ([[0, 0, 1], [0, 1, 0], [1, 0, 0]].getD i.val []).getD j.val 0) t))))
+    = some (some .x) := by decide +kernel
+
 example : select [10, 20, 30] [2, 0, 2] = some [30, 10, 30] ∧ select [10, 20, 30] [3] = none := by decide
 
 example : (mkFOT [1, 2] [3, 5] []).toOption.map (fun t => t.values.map (fun V => [V 0 0, V 0 4, V 1 3, V 1 1, V 1 2, V 8 8]))
